@@ -467,14 +467,16 @@ class _GoalConstraint:
             other_min = other_min.values
             other_max = other_max.values
 
-        min_ = np.maximum(min_, other_min)
-        max_ = np.minimum(max_, other_max)
+        self_min, self_max = min_, max_
+
+        min_ = np.maximum(self_min, other_min)
+        max_ = np.minimum(self_max, other_max)
 
         # Ensure new constraint bounds do not loosen or shift
         # previous bounds due to numerical errors.
         if enforce == "self":
-            min_ = np.minimum(max_, other_min)
-            max_ = np.maximum(min_, other_max)
+            min_ = np.minimum(min_, self_max)
+            max_ = np.maximum(max_, self_min)
         else:
             min_ = np.minimum(min_, other_max)
             max_ = np.maximum(max_, other_min)
